@@ -6,7 +6,8 @@
    universally quantified: the positive theorems hold for every heuristic.
 
    Vocabulary (RefreshProofs.v): explicit_lifetime rp recv = the lifetime from s-maxage, else max-age, else
-   Expires - Date (receipt time when Date is absent; 0 for an unparsable Expires); honours_expiry cfg = no
+   Expires - Date (receipt time when Date is absent; 0 for an unparsable Expires); cc_values_nonneg rp = a recorded
+   max-age / s-maxage is >= 0 (HttpHdrCc::parse clears negative ones); honours_expiry cfg = no
    override-expire on the matching rule and offline_mode off; honours_reload cfg = no ignore-reload and
    offline_mode off (the default configuration satisfies both); req_no_max_stale q = the request has no
    max-stale in effect; req_min_fresh q = its min-fresh (0 if none); decide = what cacheHit does
@@ -20,83 +21,58 @@ Theorem C12_default_rules_have_no_override : honours_expiry default_config /\ ho
 Proof. exact (conj default_honours_expiry default_honours_reload). Qed.
 Print Assumptions C12_default_rules_have_no_override.
 
-(* Squid never keeps a response longer than its explicit lifetime counted from the moment of receipt:
-   whatever Date skew, Age or response delay, the stored expiry is <= receipt + lifetime (or <= receipt when the
-   lifetime is negative) - except for an unparsable Expires combined with a Date more than 24 h old *)
+(* Squid never keeps a response longer than its explicit lifetime counted from the moment of receipt: whatever the
+   Date skew, Age or response delay, the stored expiry is <= receipt + lifetime (or <= receipt when the lifetime is
+   negative) *)
 Theorem C12_stored_expiry_within_explicit_lifetime : forall rp recv rt L,
   0 <= recv -> 0 <= rt ->
   explicit_lifetime rp recv = Some L ->
-  recent_date_if_unparsable rp recv ->
   e_expires (new_entry rp recv rt) <= Z.max recv (recv + L).
 Proof. exact entry_expires_bound. Qed.
 Print Assumptions C12_stored_expiry_within_explicit_lifetime.
 
-(* claim 1, one decision: once receipt + lifetime has passed, a request without max-stale is not answered from
-   the cache (it is revalidated, fetched anew, or refused with 504 under only-if-cached).  PARTIAL: needs the
-   computed expiry to be non-negative and the Date of an unparsable-Expires reply to be at most 24 h old; both
-   restrictions are necessary (see the two _refuted theorems) *)
-Theorem C12_explicit_lifetime_respected_partial : forall cfg lmf rp recv rt q now L,
-  honours_expiry cfg ->
-  0 <= recv <= now -> 0 <= rt ->
+(* ... and it is never negative, so refreshStaleness never mistakes it for "no explicit expiry" (the -1 range);
+   cc_values_nonneg is the parser's invariant that a recorded max-age / s-maxage is >= 0 *)
+Theorem C12_stored_expiry_is_nonnegative : forall rp recv rt L,
+  0 <= recv -> cc_values_nonneg rp ->
   explicit_lifetime rp recv = Some L ->
-  0 <= e_expires (new_entry rp recv rt) ->
-  recent_date_if_unparsable rp recv ->
+  0 <= e_expires (new_entry rp recv rt).
+Proof. exact entry_expires_nonneg. Qed.
+Print Assumptions C12_stored_expiry_is_nonnegative.
+
+(* claim 1, one decision: once receipt + lifetime has passed, a request without max-stale is not answered from
+   the cache (it is revalidated, fetched anew, or refused with 504 under only-if-cached).  What remains in the
+   hypotheses is only: the property's own exceptions (request max-stale; override-expire / offline_mode =
+   "configured overrides"), the parser invariant cc_values_nonneg, and the range bound now + min-fresh < 2^31
+   (refreshStaleness narrows its result to a 32-bit int) *)
+Theorem C12_explicit_lifetime_respected : forall cfg lmf rp recv rt q now L,
+  honours_expiry cfg ->
+  0 <= recv <= now -> 0 <= rt -> cc_values_nonneg rp ->
+  explicit_lifetime rp recv = Some L ->
   req_no_max_stale q -> 0 <= req_min_fresh q -> now + req_min_fresh q < 2147483648 ->
   recv + L <= now ->
   decide cfg lmf (Some (set_flags (new_entry rp recv rt))) q now <> AHit.
 Proof. exact explicit_lifetime_respected. Qed.
-Print Assumptions C12_explicit_lifetime_respected_partial.
-
-(* a non-negative lifetime (max-age, s-maxage, Expires >= Date) always gives a non-negative stored expiry *)
-Theorem C12_nonnegative_lifetime_is_representable : forall rp recv rt L,
-  0 <= recv -> 0 <= rt <= served_date rp recv 0 ->
-  explicit_lifetime rp recv = Some L -> 0 <= L ->
-  (unparsable_expires rp = true -> rp_date rp <= recv) ->
-  0 <= e_expires (new_entry rp recv rt).
-Proof. exact nonneg_lifetime_representable. Qed.
-Print Assumptions C12_nonnegative_lifetime_is_representable.
+Print Assumptions C12_explicit_lifetime_respected.
 
 (* claim 1 over ALL request histories on one URL (induction over the history; the store invariant is that the
    cached entry is exactly what timestampsSet made of the reply of the latest origin contact): no step whose
    cached response has outlived receipt + lifetime is a cache hit *)
-Theorem C12_history_explicit_lifetime_respected_partial : forall cfg lmf steps pre s o e L,
+Theorem C12_history_explicit_lifetime_respected : forall cfg lmf steps pre s o e L,
   honours_expiry cfg -> ordered 0 steps ->
   In (pre, s, o) (run_trace cfg lmf None steps) -> pre = Some e ->
+  cc_values_nonneg (e_reply e) ->
   explicit_lifetime (e_reply e) (e_recv e) = Some L ->
-  0 <= e_expires e ->
-  recent_date_if_unparsable (e_reply e) (e_recv e) ->
   req_no_max_stale (s_req s) -> 0 <= req_min_fresh (s_req s) ->
   s_now s + req_min_fresh (s_req s) < 2147483648 ->
   e_recv e + L <= s_now s ->
   forall a, o <> OHit a.
 Proof. exact history_explicit_lifetime. Qed.
-Print Assumptions C12_history_explicit_lifetime_respected_partial.
-
-(* the full-strength statement is false for the code as it is: a negative computed expiry (here -4: Date 5 s in
-   the future, Expires: Thu, 01 Jan 1970 00:00:01 GMT) falls into refreshStaleness' "no explicit expiry" range
-   and the Last-Modified heuristic serves the response for hours *)
-Theorem C12_explicit_lifetime_respected_refuted :
-  exists rp recv q now L,
-    explicit_lifetime rp recv = Some L /\ 0 <= recv <= now /\ now < 2147483648 /\ recv + L <= now /\
-    plain_request q /\ req_no_max_stale q /\ req_min_fresh q = 0 /\ unparsable_expires rp = false /\
-    e_expires (new_entry rp recv 0) = -4 /\
-    decide default_config lm_default (Some (set_flags (new_entry rp recv 0))) q now = AHit.
-Proof. exact explicit_lifetime_refuted. Qed.
-Print Assumptions C12_explicit_lifetime_respected_refuted.
-
-(* ... and an unparsable Expires ("already expired") with a Date older than 24 h yields a lifetime of now - Date,
-   even for a must-revalidate response *)
-Theorem C12_unparsable_expires_old_date_refuted :
-  exists rp recv q now L,
-    explicit_lifetime rp recv = Some L /\ L = 0 /\ 0 <= recv <= now /\ now < 2147483648 /\ recv + L <= now /\
-    plain_request q /\ req_no_max_stale q /\ req_min_fresh q = 0 /\
-    unparsable_expires rp = true /\ marked_must_revalidate rp /\ 0 <= e_expires (new_entry rp recv 0) /\
-    decide default_config lm_default (Some (set_flags (new_entry rp recv 0))) q now = AHit.
-Proof. exact unparsable_expires_refuted. Qed.
-Print Assumptions C12_unparsable_expires_old_date_refuted.
+Print Assumptions C12_history_explicit_lifetime_respected.
 
 (* claim 2: requests with Cache-Control no-cache or max-age=0 are never answered from the cache, whatever is
-   cached.  PARTIAL for max-age=0: the cached response must not be Cache-Control: immutable *)
+   cached.  PARTIAL for max-age=0: the cached response must not be Cache-Control: immutable (refreshCheck ignores
+   the request's max-age for immutable replies, RFC 8246 - known finding, witness below) *)
 Theorem C12_reload_requests_contact_origin_partial : forall cfg lmf st q now,
   honours_reload cfg -> asks_reload q ->
   (q_no_cache q = false -> forall e, st = Some e -> cc_flag (e_reply e) rp_immutable = false) ->
@@ -112,19 +88,17 @@ Proof. exact reload_refuted. Qed.
 Print Assumptions C12_reload_requests_contact_origin_refuted.
 
 (* claim 3: a must-revalidate / proxy-revalidate response whose lifetime has passed is never answered from the
-   cache - for every configuration with offline_mode off, max-stale or not.  PARTIAL: same two restrictions *)
-Theorem C12_must_revalidate_when_stale_partial : forall cfg lmf rp recv rt q now L,
+   cache - for every configuration with offline_mode off, max-stale or not (same invariant and range bound) *)
+Theorem C12_must_revalidate_when_stale : forall cfg lmf rp recv rt q now L,
   c_offline cfg = false ->
   marked_must_revalidate rp ->
-  0 <= recv <= now -> 0 <= rt ->
+  0 <= recv <= now -> 0 <= rt -> cc_values_nonneg rp ->
   explicit_lifetime rp recv = Some L ->
-  0 <= e_expires (new_entry rp recv rt) ->
-  recent_date_if_unparsable rp recv ->
   0 <= req_min_fresh q -> now + req_min_fresh q < 2147483648 ->
   recv + L <= now ->
   decide cfg lmf (Some (set_flags (new_entry rp recv rt))) q now <> AHit.
 Proof. exact must_revalidate_stale_contacts. Qed.
-Print Assumptions C12_must_revalidate_when_stale_partial.
+Print Assumptions C12_must_revalidate_when_stale.
 
 (* refreshCheck as a whole: a "fresh" answer (code < 200) is only possible in the listed situations *)
 Theorem C12_refresh_check_fresh_only_when_allowed : forall cfg lmf e oq now delta,
@@ -153,12 +127,22 @@ Print Assumptions C12_default_lm_factor_matches_code.
 
 (* ---------- the hypotheses are satisfiable and the stated exceptions are real ---------- *)
 Example C12_ex_lifetime_hypotheses_hold :
-  honours_expiry default_config /\ explicit_lifetime ok_reply t_recv = Some 100 /\
-  0 <= e_expires (new_entry ok_reply t_recv 0) /\ recent_date_if_unparsable ok_reply t_recv /\
+  honours_expiry default_config /\ explicit_lifetime ok_reply t_recv = Some 100 /\ cc_values_nonneg ok_reply /\
   req_no_max_stale plain_q /\ req_min_fresh plain_q = 0 /\
   decide default_config lm_default (stored ok_reply) plain_q (t_recv + 99) = AHit /\
   decide default_config lm_default (stored ok_reply) plain_q (t_recv + 100) = ARevalidate.
 Proof. exact ex_lifetime_hyps. Qed.
+
+(* the two former counterexamples (negative computed expiry; unparsable Expires with a Date older than 24 h) are
+   revalidated from the first second on, now that /repo carries the repairs *)
+Example C12_ex_former_witnesses_are_revalidated :
+  e_expires (new_entry w1_reply t_recv 0) = 0 /\
+  decide default_config lm_default (stored w1_reply) plain_q t_recv = ARevalidate /\
+  decide default_config lm_default (stored w1_reply) plain_q (t_recv + 3600) = ARevalidate /\
+  e_expires (new_entry w2_reply t_recv 0) = t_recv /\
+  decide default_config lm_default (stored w2_reply) plain_q t_recv = ARevalidate /\
+  decide default_config lm_default (stored w2_reply) plain_q (t_recv + 66602) = ARevalidate.
+Proof. exact ex_former_witnesses_revalidated. Qed.
 
 Example C12_ex_max_stale_is_an_exception :
   decide default_config lm_default (stored ok_reply) (q_with None (Some CC_MAX_STALE_ANY)) (t_recv + 5000) = AHit /\
